@@ -4,6 +4,7 @@ import (
 	"fmt"
 	"go/token"
 	"go/types"
+	"sort"
 	"strings"
 
 	"golang.org/x/tools/go/ssa"
@@ -25,7 +26,7 @@ func checkC04(c *Ctx) {
 	// re-encodes what the parser kept, so the parser may drop nothing (shared with C16)
 	c.ruleAttrLossless("A.lossless")
 	c.ruleAttrPair("X3.pair")
-	c.R.Floor("A.lossless", 2)
+	c.R.Floor("A.lossless", 1)
 	c.ruleSerialValue("A.serial-value")
 	c.ruleFrozen("A.frozen")
 	c.R.Floor("A.frozen", 5)
@@ -102,9 +103,41 @@ func (c *Ctx) sameSigner(fn *ssa.Function) {
 		c.R.Infof("A.same-signer", name(fn), "signer-identity", c.Pos(fn.Pos()), "not decided for this shape: no use of a signer entry found in the view of the verifier")
 		return
 	}
+	// the same element of one slice value read twice (signers[i] ... signers[i]) is one
+	// signer entry, provided nothing in that function writes an element of the slice
+	elemOf := func(d dval) (base, idx ssa.Value, ok bool) {
+		ld, isLd := d.v.(*ssa.UnOp)
+		if !isLd || ld.Op != token.MUL {
+			return nil, nil, false
+		}
+		ia, isIA := ld.X.(*ssa.IndexAddr)
+		if !isIA {
+			return nil, nil, false
+		}
+		if _, isSl := ia.X.Type().Underlying().(*types.Slice); !isSl || ia.Parent() == nil {
+			return nil, nil, false
+		}
+		written := false
+		instrsOf(ia.Parent(), func(i ssa.Instruction) {
+			if st, isSt := i.(*ssa.Store); isSt {
+				if w, isW := st.Addr.(*ssa.IndexAddr); isW && w.X == ia.X {
+					written = true
+				}
+			}
+		})
+		return ia.X, ia.Index, !written
+	}
+	sameEntry := func(a, b dval) bool {
+		if a.same(b) {
+			return true
+		}
+		ab, ai, okA := elemOf(a)
+		bb, bi, okB := elemOf(b)
+		return okA && okB && a.fr == b.fr && ab == bb && ai == bi
+	}
 	ok, det := true, ""
 	for _, u := range uses[1:] {
-		if !u.obj.same(uses[0].obj) {
+		if !sameEntry(u.obj, uses[0].obj) {
 			ok = false
 			det = "the use at " + c.IPos(u.at) + " is applied to a different signer value than the one at " + c.IPos(uses[0].at)
 		}
@@ -436,7 +469,8 @@ func (c *Ctx) ruleOptionalLast(rule string) int {
 			}
 			args := ir.CallArgs(call)
 			if len(args) == 0 || !strings.HasPrefix(ir.CallID(call), cbPkg+".String.") {
-				return false
+				// the length of the string, or a helper of the tree that looks at it
+				return derLooksAt(al, i)
 			}
 			if args[0] == ssa.Value(al) {
 				return true
@@ -495,6 +529,119 @@ func (c *Ctx) ruleOptionalLast(rule string) int {
 				}
 				c.R.Check(bad == "", rule, name(fn), construct, c.IPos(call), "after an optional element is read from a nested structure, what is left of the structure is looked at (Empty or a further read)",
 					"the optional element is the last thing read from the structure and the function returns successfully at "+bad+" without looking at what is left: an element with another tag in its place is skipped silently (the blob then counts as not having the optional part)")
+			}
+		}
+		// the same optional read spelled as a look at the next tag (PeekASN1Tag) that
+		// guards a read: the element is read when it is there and skipped when not
+		for _, b := range fn.Blocks {
+			for _, i := range b.Instrs {
+				peek, ok := i.(*ssa.Call)
+				if !ok || ir.CallID(peek) != cbPkg+".String.PeekASN1Tag" {
+					continue
+				}
+				args := ir.CallArgs(peek)
+				if len(args) == 0 {
+					continue
+				}
+				src := args[0]
+				if ld, isLd := src.(*ssa.UnOp); isLd && ld.Op == token.MUL {
+					src = ld.X
+				}
+				al, isA := src.(*ssa.Alloc)
+				if !isA || !nested[al] {
+					continue
+				}
+				// the reads that happen only when the tag is there
+				var present *ir.CondEdge
+				for _, ce := range ir.CondEdges(fn) {
+					if ce.Cond == ssa.Value(peek) && ce.Truth {
+						ce := ce
+						present = &ce
+					}
+				}
+				if present == nil {
+					continue
+				}
+				guarded := map[ssa.Instruction]bool{}
+				for _, bb := range fn.Blocks {
+					if !ir.EdgeDominates(fn, present.Edge, bb) {
+						continue
+					}
+					for _, j := range bb.Instrs {
+						if jc, isC := j.(*ssa.Call); isC && usesOf(al, j) && strings.HasPrefix(ir.CallID(jc), cbPkg+".String.Read") {
+							guarded[j] = true
+						}
+					}
+				}
+				if len(guarded) == 0 {
+					continue
+				}
+				n++
+				key := ordinalKey(counts, name(fn)+":optional")
+				construct := strings.TrimPrefix(key, name(fn)+":")
+				blocked := map[int]bool{}
+				for _, bb := range fn.Blocks {
+					for _, j := range bb.Instrs {
+						if j != ssa.Instruction(peek) && !guarded[j] && usesOf(al, j) {
+							blocked[bb.Index] = true
+						}
+					}
+				}
+				cut := map[ir.Edge]bool{}
+				for bi := range blocked {
+					for _, p := range fn.Blocks[bi].Preds {
+						cut[ir.Edge{From: p.Index, To: bi}] = true
+					}
+				}
+				// the edge on which a guarded read failed is not a path to success
+				for _, ce := range ir.CondEdges(fn) {
+					if rc, isI := ce.Cond.(ssa.Instruction); isI && guarded[rc] && !ce.Truth {
+						cut[ce.Edge] = true
+					}
+				}
+				bad := ""
+				later, after := false, false
+				for _, j := range b.Instrs {
+					if j == ssa.Instruction(peek) {
+						after = true
+					} else if after && !guarded[j] && usesOf(al, j) {
+						later = true
+					}
+				}
+				if !later {
+					seen, _ := ir.Reach(fn, b, cut)
+					for _, r := range acceptingReturns(fn) {
+						if seen[r.Block().Index] {
+							bad = c.IPos(r)
+						}
+					}
+				}
+				c.R.Check(bad == "", rule, name(fn), construct, c.IPos(peek), "after an optional element is read from a nested structure, what is left of the structure is looked at (Empty or a further read)",
+					"the optional element is the last thing read from the structure and the function returns successfully at "+bad+" without looking at what is left: an element with another tag in its place is skipped silently (the blob then counts as not having the optional part)")
+			}
+		}
+		// the optional read made by a helper of the tree that is handed the nested
+		// structure: the helper's exits that leave the rest unlooked are followed here
+		var cells []*ssa.Alloc
+		for al := range nested {
+			cells = append(cells, al)
+		}
+		sort.Slice(cells, func(i, j int) bool { return cells[i].Pos() < cells[j].Pos() })
+		for _, al := range cells {
+			for _, site := range optReadSites(fn, al, true) {
+				n++
+				key := ordinalKey(counts, name(fn)+":optional")
+				construct := strings.TrimPrefix(key, name(fn)+":")
+				bad := ""
+				for _, r := range acceptingReturns(fn) {
+					for _, e := range site.exits {
+						if e == r {
+							bad = c.IPos(r)
+						}
+					}
+				}
+				c.R.Check(bad == "", rule, name(fn), construct, c.IPos(site.call), "after an optional element is read from a nested structure, what is left of the structure is looked at (Empty or a further read)",
+					"the optional element is the last thing read from the structure (by "+name(ir.Callee(site.call))+") and the function returns successfully at "+bad+" without looking at what is left: an element with another tag in its place is skipped silently (the blob then counts as not having the optional part)")
 			}
 		}
 	}
